@@ -12,6 +12,7 @@ import (
 	"strings"
 	"sync"
 	"testing"
+	"time"
 
 	"github.com/golang/protobuf/proto"
 	"github.com/openacid/slim/trie"
@@ -191,29 +192,61 @@ type runner struct {
 // an auxiliary object, say) is a violation all the same: no listed API may panic on
 // valid input. A panic without any library frame on its stack is a harness bug and
 // is passed on (the driver reports it as inconclusive, never as a violation).
-func safeCheck(check func(c *Case, s *Stats) error, c *Case, s *Stats) (err error) {
-	defer func() {
-		if r := recover(); r != nil {
-			buf := make([]byte, 32768)
-			n := runtime.Stack(buf, false)
-			where := ""
-			for _, l := range strings.Split(string(buf[:n]), "\n") {
-				if strings.Contains(l, "openacid/slim/") && !strings.Contains(l, "verifharness") ||
-					strings.Contains(l, "/trie/slimtrie") || strings.Contains(l, "/array/") && strings.Contains(l, ".go:") && !strings.Contains(l, "arrayprops") ||
-					strings.Contains(l, "/encode/") && strings.Contains(l, ".go:") || strings.Contains(l, "/index/index.go") {
-					where += " < " + strings.TrimSpace(l)
-					if len(where) > 600 {
-						break
+func safeCheck(check func(c *Case, s *Stats) error, c *Case, s *Stats) error {
+	type outcome struct {
+		err          error
+		harnessPanic interface{}
+	}
+	done := make(chan outcome, 1)
+	go func() {
+		var o outcome
+		defer func() {
+			if r := recover(); r != nil {
+				buf := make([]byte, 32768)
+				n := runtime.Stack(buf, false)
+				where := ""
+				for _, l := range strings.Split(string(buf[:n]), "\n") {
+					if strings.Contains(l, "openacid/slim/") && !strings.Contains(l, "verifharness") ||
+						strings.Contains(l, "/trie/slimtrie") || strings.Contains(l, "/array/") && strings.Contains(l, ".go:") && !strings.Contains(l, "arrayprops") ||
+						strings.Contains(l, "/encode/") && strings.Contains(l, ".go:") || strings.Contains(l, "/index/index.go") {
+						where += " < " + strings.TrimSpace(l)
+						if len(where) > 600 {
+							break
+						}
 					}
 				}
+				if where == "" {
+					o.harnessPanic = fmt.Sprintf("%v\n%s", r, buf[:n])
+				} else {
+					o.err = viol("panic", "library code panicked: %v @%s", r, where)
+				}
 			}
-			if where == "" {
-				panic(r)
-			}
-			err = viol("panic", "library code panicked: %v @%s", r, where)
-		}
+			done <- o
+		}()
+		o.err = check(c, s)
 	}()
-	return check(c, s)
+	// Case-level watchdog: a generated case normally takes milliseconds (seconds for
+	// the largest ones). A call of the API under test that does not return is a
+	// violation of every listed property (each speaks of what a call returns); the
+	// narrower watchdogs around single calls (C04, C08, C10, C18) name the call.
+	tm := time.NewTimer(2 * hangLimit())
+	defer tm.Stop()
+	select {
+	case o := <-done:
+		if o.harnessPanic != nil {
+			panic(o.harnessPanic)
+		}
+		return o.err
+	case <-tm.C:
+		path := writeReplay(c.Prop, c)
+		fmt.Printf("VIOLATION property=%s replay=%s\n", c.Prop, path)
+		fmt.Printf("DETAIL property=%s non-termination: the case did not finish within %v (%d keys, generator %s); the calls it makes normally return within milliseconds\n", c.Prop, 2*hangLimit(), len(c.Keys), c.Gen)
+		if s != nil {
+			s.write()
+		}
+		os.Exit(1)
+	}
+	return nil
 }
 
 // eval runs the property on one case, records a failure and reports it to rapid.
@@ -289,6 +322,9 @@ func runReplay(t *testing.T, prop string, check func(c *Case, s *Stats) error) {
 		c := &Case{}
 		if err := json.Unmarshal(b, c); err != nil {
 			t.Fatalf("cannot parse replay %s: %v", f, err)
+		}
+		if c.Prop == "" {
+			c.Prop = prop
 		}
 		if err := safeCheck(check, c, st); err != nil {
 			if _, ok := err.(*violation); !ok {
